@@ -82,7 +82,7 @@ def _mk_case(rng, cls, w, h, torus, qs, extra_ops=()):
     for (x, y, moore, ic, r) in qs:
         kind = rng.choice(["nbhd", "nbhd", "nbrs", "nbrs"])
         # "abandon" = an iterator that is started and dropped before the query proper; "np" = numpy integer arguments
-        form = rng.choice(["get", "iter", "get", "iter", "abandon", "np"])
+        form = rng.choice(["get", "iter", "get", "iter", "abandon", "np", "np32", "npflags"])
         ops.append([kind, x, y, moore, ic, r, form])
     ops += list(extra_ops)
     return {"cls": cls, "w": w, "h": h, "torus": torus, "agents": agents, "ops": ops}
@@ -93,7 +93,7 @@ def _gen_large(rng, tier):
     cells holding many agents, histories of several hundred distinct queries followed by repeats (caches with limits),
     long path/cycle graphs.  The model's cost depends on the radius, not on the grid size."""
     cases = []
-    forms = ["get", "iter", "get", "iter", "abandon", "np"]
+    forms = ["get", "iter", "get", "iter", "abandon", "np", "np32", "npflags"]
     for _ in range(36 if tier == "quick" else 700):
         shape = rng.randrange(3)
         big = rng.choice([129, 200, 255, 256, 257, 258, 259, 300, 513, 700])
@@ -600,15 +600,18 @@ def run_impl(case):
                     it = g.iter_neighborhood((x, y), moore, ic, r) if kind == "nbhd" else g.iter_neighbors((x, y), moore, ic, r)
                     next(it, None)
                     del it
-                if form == "np":
+                if form in ("np", "np32", "npflags"):
                     import numpy as np
 
-                    px, py, pr = (np.int64(x), np.int64(y)), None, np.int64(r)
-                    qpos = px
+                    ity = np.int32 if form == "np32" else np.int64
+                    qpos, pr = (ity(x), ity(y)), ity(r)
+                    if form == "npflags":      # flags as they come out of numpy computations / as 0-1 ints
+                        moore = np.bool_(moore) if (x + y) % 2 else int(moore)
+                        ic = int(ic) if (x + y) % 2 else np.bool_(ic)
                 else:
                     qpos, pr = (x, y), r
                 if kind == "nbhd":
-                    res = g.get_neighborhood(qpos, moore, ic, pr) if form in ("get", "np") else list(g.iter_neighborhood(qpos, moore, ic, pr))
+                    res = g.get_neighborhood(qpos, moore, ic, pr) if form in ("get", "np", "np32", "npflags") else list(g.iter_neighborhood(qpos, moore, ic, pr))
                     cells = [tuple(int(v) for v in c) for c in res]
                     obs.append(_obs_cells(cells))
                     if inb:
@@ -620,7 +623,7 @@ def run_impl(case):
                             failures.append({"key": f"C09/{case['cls']}/neighborhood/wrong-cells", "op": i,
                                              "what": f"get_neighborhood({(x, y)}, moore={moore}, include_center={ic}, radius={r}) on {w}x{h} torus={torus}: got {sorted(cells)}, the cells in range are {sorted(exp)}"})
                 else:
-                    res = g.get_neighbors(qpos, moore, ic, pr) if form in ("get", "np") else list(g.iter_neighbors(qpos, moore, ic, pr))
+                    res = g.get_neighbors(qpos, moore, ic, pr) if form in ("get", "np", "np32", "npflags") else list(g.iter_neighbors(qpos, moore, ic, pr))
                     got = [a._verif_id for a in res]
                     obs.append(_obs_agents(got))
                     if inb:
